@@ -17,6 +17,15 @@ def types_file(scratch, tier, res=None):
     r = vlib.run_tlc(scratch, "GoTypes", cfg, workers=8, timeout=900)
     vlib.require_tlc_ok(r, cfg)
     types = r.prints.get("TYPE") or []
+    # the member matrix: every leaf, directly or behind a pointer, with every tag option x sibling position
+    rm = vlib.run_tlc(scratch, "GoTypes", "GoTypes_gen_matrix.cfg", workers=4, timeout=600)
+    vlib.require_tlc_ok(rm, "GoTypes_gen_matrix.cfg")
+    seen0 = {json.dumps(t, sort_keys=True) for t in types}
+    for t in rm.prints.get("TYPE") or []:
+        if json.dumps(t, sort_keys=True) not in seen0:
+            types.append(t)
+    r.generated += rm.generated
+    r.distinct += rm.distinct
     if tier == "thorough":
         # plus every two-step construction with the full set of struct steps
         r2 = vlib.run_tlc(scratch, "GoTypes", "GoTypes_gen_full2.cfg", workers=8, timeout=900)
@@ -37,6 +46,62 @@ def types_file(scratch, tier, res=None):
     return p, r, len(types)
 
 
+def field_rules(scratch, tier, binary, side, out):
+    """Programs of specs/FieldRules.tla (three struct types, embedding, colliding names, hidden fields) with the member list the
+    Go rules prescribe; the harness realises them with reflect.StructOf.  `side` selects which divergences count for the caller
+    ("encode" for C01, "decode" for C02); ORACLE signatures (specification vs encoding/json) always count."""
+    cfg = "FieldRules_mc.cfg" if tier == "quick" else "FieldRules_mc_thorough.cfg"
+    r = vlib.run_tlc(scratch, "FieldRules", cfg, workers=8, timeout=1500)
+    vlib.require_tlc_ok(r, cfg)
+    seen, progs = set(), []
+    for pr in r.prints.get("PROGRAM") or []:
+        # types that T1 cannot reach do not matter: keep one representative
+        reach, todo = {1}, [1]
+        while todo:
+            k = todo.pop()
+            for f in pr["types"][k - 1]:
+                if f["kind"] == "embed" and f["ref"] not in reach:
+                    reach.add(f["ref"])
+                    todo.append(f["ref"])
+        key = json.dumps([pr["types"][k - 1] if k in reach else None for k in (1, 2, 3)], sort_keys=True)
+        if key in seen:
+            continue
+        seen.add(key)
+        progs.append(pr)
+    if len(progs) < 1000:
+        raise vlib.Infra("FieldRules produced only %d programs" % len(progs))
+    progs.sort(key=lambda pr: json.dumps(pr["types"], sort_keys=True))
+    fp = os.path.join(scratch.path, "fieldrules.ndjson")
+    with open(fp, "w") as f:
+        for pr in progs:
+            f.write(json.dumps(pr) + "\n")
+    job = dict(prop="C01", tier=tier, seed=vlib.seed(), params=dict(cases=fp))
+    o = vlib.run_workers(scratch, binary, "fr", job, case_timeout=60, total_timeout=1500)
+    for sig, st in o.sigs.items():
+        p = sig.split("|")
+        if p[0] == "fields" and p[1] != side:
+            continue
+        cur = out.sigs.setdefault(sig, dict(count=0, counted=True, examples=[], details=[], fine={}))
+        cur["count"] += st["count"]
+        for fs, n in (st.get("fine") or {}).items():
+            cur["fine"][fs] = cur["fine"].get(fs, 0) + n
+        cur["examples"] += st["examples"][:2]
+        cur["details"] += st["details"][:2]
+    out.evaluations += o.evaluations
+    out.nontrivial += o.nontrivial
+    out.counters["calls"] = out.counters.get("calls", 0) + o.counters.get("calls", 0)
+    out.crashes += o.crashes
+    out.infra += o.infra
+    return r, len(progs)
+
+
+FR_ASSUME = ("specs/FieldRules.tla: which struct fields are members of the JSON object (breadth-first promotion through embedded structs by "
+             "value and by pointer, tag renaming, hidden fields, shallowest-wins, exactly-one-tagged-wins, otherwise dropped); TLC checks "
+             "NamesUnique, DirectWins, HiddenStayHidden for every program of three struct types within the bounds and exports program + "
+             "member list; the harness builds the types with reflect.StructOf and compares Marshal / Unmarshal with encoding/json; the "
+             "specification's member list is a third voice (a disagreement with encoding/json is exit 2)")
+
+
 WITNESSES = {
     "array1-of-pointer-shaped": dict(type=dict(leaf="int", steps=["ptr", "array1"]), mode="typical", variant="marshal|direct"),
     "top-level-pointer-to-pointer-to-pointer-shaped": dict(type=dict(leaf="int", steps=["map_s", "ptr"]), mode="typical", variant="marshal|ptr"),
@@ -49,6 +114,8 @@ def describe(sig, st):
         return "encoding is memory-unsafe (crash, panic or garbage depending on stale memory) for the type family %s; the family is excluded from the differential comparison" % p[1]
     if p[0] == "crash":
         return "the process dies (%s) while encoding %s" % (p[1], "|".join(p[2:]))
+    if p[0] == "fields":
+        return "the members of a struct's JSON object differ from Go's field rules (%s: %s) for programs with %s" % (p[1], p[2].replace("-", " "), p[3] if len(p) > 3 else "?")
     return "Marshal %s for the minimal type [%s] with %s values" % (
         {"different-document": "produces a different document than encoding/json",
          "error-where-std-succeeds": "returns an error where encoding/json succeeds",
@@ -90,12 +157,18 @@ def run_typed(prop, check, tier, scratch, record, level, rule, assume, describe_
     out = vlib.run_workers(scratch, binary, RUNNER, job, case_timeout=60, total_timeout=3300 if tier == "thorough" else 900)
     if with_witnesses:
         witnesses(scratch, binary, out)
+    nfr = 0
+    if check == "C01":
+        fres, nfr = field_rules(scratch, tier, binary, "encode", out)
+        tl.append(fres)
     prec = dict(params)
     prec["types"] = "<emitted by TLC at run time>"
     if with_table:
         prec["table"] = "<exported by TLC at run time>"
     cov = dict(rule=rule % dict(ntypes=ntypes, nmodes=4 + params["rand_modes"] + len(params.get("modes") or [])),
-               exhaustive=True, traces_validated_against_impl=ntypes)
+               exhaustive=True, traces_validated_against_impl=ntypes + nfr)
+    if nfr:
+        cov["rule"] += "; plus %d field-rule programs emitted by TLC from FieldRules.tla (filled and nil-pointer values)" % nfr
     f = vlib.Findings(prop)
     return vlib.conclude(prop, tier, level, t0, out, f, RUNNER, prec, cov, assume, record=record,
                          tlc_results=tl, describe=describe_fn)
@@ -106,7 +179,7 @@ def run(tier, scratch, record=False):
                      "%(ntypes)d type constructions emitted by TLC x %(nmodes)d value modes x 7 variants (Marshal / MarshalIndent / Encoder "
                      "without HTML escaping; value reached directly, behind a pointer, inside interface{}); non-trivial = distinct "
                      "(type, mode) pairs; the two memory-unsafe type families are excluded and represented by isolated witnesses",
-                     ASSUME, describe, with_witnesses=True)
+                     ASSUME + [FR_ASSUME], describe, with_witnesses=True)
 
 
 def typed_replay(scratch, rp, check, with_table=False):
@@ -119,4 +192,8 @@ def typed_replay(scratch, rp, check, with_table=False):
 
 
 def replay(scratch, rp):
+    if "types" in (rp.get("case") or {}) and "members" in rp["case"]:
+        binary, job = vlib.generic_replay(scratch, rp, "fr")
+        job["params"] = dict(cases="/dev/null")
+        return vlib.finish_replay(rp["property"], binary, "fr", job, scratch)
     return typed_replay(scratch, rp, "C01")
